@@ -1,1 +1,34 @@
-From V.C17 Require Import Model Spec.
+(* C17 — non-vacuity: concrete values meeting the theorems' hypotheses, and worked conversions. *)
+From Coq Require Import ZArith List Bool String Floats.
+From V.C17 Require Import Model Spec Proofs.
+Open Scope Z_scope.
+
+Definition lib0 : golib :=
+  {| parse_float := fun _ => None; fmt_g14 := fun _ => ""%string; fmt_g := fun _ => ""%string;
+     f32 := fun f => f; other_str := ""%string |}.
+
+Example ex_int64 : to_go lib0 KInt64 (SInt 5) = Ok (GNum KInt64 5) /\ dyn_kind (GNum KInt64 5) = KInt64.
+Proof. split; reflexivity. Qed.
+Example ex_int8_max : to_go lib0 KInt8 (SInt 127) = Ok (GNum KInt8 127) /\ to_go lib0 KInt8 (SInt 128) = Throw.
+Proof. split; reflexivity. Qed.
+Example ex_uint8_neg : to_go lib0 KUint8 (SInt (-1)) = Throw /\ to_go lib0 KUint64 (SInt maxint) = Ok (GNum KUint64 maxint).
+Proof. split; reflexivity. Qed.
+Example ex_string_to_int : to_go lib0 KInt (SStr "12") = Throw.
+Proof. reflexivity. Qed.
+Example ex_hyp : wf (SInt minint) = true /\ matching (SInt minint) KInt64 = true /\ unconvertible lib0 (SInt minint) KInt64 = false
+              /\ unconvertible lib0 (SInt 300) KInt8 = true /\ matching (SFloat 1.5) KFloat32 = true.
+Proof. repeat split. Qed.
+Example ex_uint64_result : from_go (GNum KUint64 18446744073709551615) = Throw /\ returnable (GNum KUint64 maxint) = true.
+Proof. split; reflexivity. Qed.
+Example ex_call : call lib0 [KInt64; KString; KBool] [SInt 5; SStr "x"; SBool true] (Some (GNum KInt32 9)) =
+  ([GNum KInt64 5; GStr "x"; GBool true], Ok (SInt 9)).
+Proof. vm_compute. reflexivity. Qed.
+Example ex_all_ok : all_ok lib0 [KInt64; KString; KBool] [SInt 5; SStr "x"; SBool true] = true.
+Proof. reflexivity. Qed.
+Example ex_call_bad : call lib0 [KInt; KInt8] [SInt 1; SInt 300] None = ([], Throw).
+Proof. reflexivity. Qed.
+Example ex_unsupported : call lib0 [KOther] [SOther] None = ([], Throw).
+Proof. reflexivity. Qed.
+Example ex_generic : generic lib0 KInt8 (SInt 300) = Throw /\ generic lib0 KInt16 (SInt 300) = Ok (GNum KInt16 300)
+                  /\ generic lib0 KUint8 (SFloat 255.9) = Ok (GNum KUint8 255).
+Proof. repeat split; vm_compute; reflexivity. Qed.
